@@ -1,4 +1,5 @@
 """Refinements (metahandlers): generate lies within the documented predicate and is accepted by validate (C02)."""
+import specs.sources  # noqa: F401  (declaration order)
 from pyvc.spec import REG as R, Loop
 
 INTS = "geneticengine/grammar/metahandlers/ints.py"
